@@ -65,7 +65,7 @@ package main
 //@   at call (*engine.Change).Replace set changelogsUsed = changelogsUsed + 1
 //@   at call (*astdiff.Snapshot).Diff assert [C17] the-snapshot-is-advanced-with-the-regions-of-this-change: unbox(arg2, "S_engine_Changelog") == lastChangelog
 //@   at call main.cleanupFilePos assert [C17] only-the-regions-of-this-change-are-cleaned-up: arg1 == lastChangelog
-//@   assigns r.errors, elems(r.errors), group(ast), matchCount, replFail, sitesReplaced, restructured, inspections, lastChangelog, changelogsMade, changelogsUsed, allof("F.S_astdiff_value.Comments")
+//@   assigns r.errors, elems(r.errors), group(ast), matchCount, replFail, sitesReplaced, restructured, inspections, importFailures, lastChangelog, changelogsMade, changelogsUsed, allof("F.S_astdiff_value.Comments")
 //@   ensures [C16] recorded-errors-are-errors: forall i int {r.errors[i]} :: 0 <= i && i < len(r.errors) ==> r.errors[i] != nil
 //@   ensures [C06,C08,C09] matched-has-file: matched ==> fout != nil
 //@   ensures [C06] matched-only-after-match: matched ==> matchCount > old(matchCount)
@@ -111,7 +111,10 @@ package main
 //@   ensures [C15] pruned-directories-else-nil: err == nil && modeIsDir(fileMode(info)) && res != global("path/filepath.SkipDir") ==> res == nil
 //@   ensures [C15] other-entries-ignored: err == nil && !modeIsDir(fileMode(info)) && !(modeIsRegular(fileMode(info)) && hasSuffix(path, ".go")) ==> res == nil
 
+// An argument is walked under its canonical spelling (no ., .. or doubled separators), absolute or not: the
+// spelling is what findFiles recognises a file by when two arguments reach it (C15).
 //@ func findGoFiles(cwd, path) (files, err)
+//@   at call path/filepath.Walk assert [C15] every-argument-is-walked-under-its-canonical-spelling: arg0 == "" || isCleanPath(arg0)
 //@   assigns nothing
 
 //@ func findFiles(cwd, patterns) (files, err)
@@ -165,6 +168,8 @@ package main
 //@   at call (*main.mainCmd).preview assert [C18] generated-skipped: !(opts.SkipGenerated && ret("main.checkGeneratedCode", 0))
 //@   at call (*main.mainCmd).printComments assert [C06,C12] only-matched: ok
 //@   at call (*main.patchRunner).Apply assert [C18] generated-skipped: !(opts.SkipGenerated && ret("main.checkGeneratedCode", 0))
+//@   at call main.findFiles set enumerations = enumerations + 1
+//@   ensures [C15] success-means-the-requested-files-were-enumerated-and-each-was-visited: err == nil && !ret("main.newArgParser", 0, 1).DisplayVersion ==> enumerations == old(enumerations) + 1 && filesRead == visitMark + filesListed
 //@   at call main.findFiles set visitMark = filesRead
 //@   at call main.findFiles set filesListed = len(result0)
 //@   at call os.ReadFile set filesRead = filesRead + 1
